@@ -8,6 +8,7 @@ Tokens: contents of a tensor -> small integer by hashing its bytes with first-oc
 """
 import copy
 import os
+import pickle
 import shutil
 import tempfile
 
@@ -173,7 +174,12 @@ class Real:
             w["metas"][str(s)] = {"entries": self.obs_dict(self.metas[s])}
         for p in range(6):
             if os.path.exists(self.path(p)):
-                f = torch.load(self.path(p), weights_only=False)
+                try:
+                    f = torch.load(self.path(p), weights_only=False)
+                except (EOFError, RuntimeError, pickle.UnpicklingError, ValueError) as e:
+                    # a file that no longer holds a checkpoint (e.g. truncated by a refused save) is a state of the world
+                    # the model cannot be in: report it as the file's content so that the comparison shows it
+                    f = {"<unreadable>": type(e).__name__}
                 w["files"][str(p)] = self.obs_dict(f)
         return w
 
@@ -230,6 +236,11 @@ class Real:
         """spec: None | "empty" | list of extra names -> (python object, model entries)"""
         if spec is None:
             return None, None
+        if isinstance(spec, dict) and "raw" in spec:
+            # a dictionary the caller wrote out in full (NOT through create_dict): exactly these names, in this order --
+            # it need not contain the default X / Y / Z
+            ud = {name: torch.randn(2, 2, 2, generator=self.gen, dtype=torch.double) for name in spec["raw"]}
+            return ud, [[k, self.tok.tensor(v)] for k, v in ud.items()]
         if isinstance(spec, dict):  # {"ref": udslot}: the caller's dict object itself (shared between constructors)
             ud = self.uds[spec["ref"]]
             return ud, [[k, self.tok.tensor(v)] for k, v in ud.items()]
@@ -343,9 +354,14 @@ class Real:
                 if op["bases"]:
                     kw["input_bases"] = bases
                 m["toks"] = [[] for _ in st.networks]
+                stopped = bool(op.get("stopped")) and not op["bases"] and len(st.networks) == 2
+                if stopped:
+                    st.stop_training = True
                 try:
                     st.fit(data, **kw)
                 finally:
+                    if stopped:
+                        st.stop_training = False
                     m["toks"] = [self.all_tokens(getattr(st, n)) for n in st.networks]
             elif t == "reinit":
                 st = self.models[op["slot"]]
@@ -478,7 +494,7 @@ def admissible(real, op):
         return False
     if t in ("constructFrom", "writeModule", "initModule") and op["mslot"] not in real.modules:
         return False
-    if t in ("construct", "constructFrom") and isinstance(op.get("ud"), dict) and op["ud"]["ref"] not in real.uds:
+    if t in ("construct", "constructFrom") and isinstance(op.get("ud"), dict) and "ref" in op["ud"] and op["ud"]["ref"] not in real.uds:
         return False
     if t == "write" and op["net"] not in real.models[op["slot"]].networks:
         return False
@@ -501,6 +517,10 @@ def admissible(real, op):
         if "unitary_dict" not in real.models[op["slot"]].__dict__ or (t == "saverSave" and op["metadataOnly"]):
             return False
     if t == "train" and op.get("bases"):
+        # the training data uses the bases X, Y and Z: a state whose dictionary lacks one of them cannot be trained on it (KeyError)
+        ud0 = real.models[op["slot"]].__dict__.get("unitary_dict")
+        if ud0 is not None and not all(b in ud0 for b in "XYZ"):
+            return False
         # a ComplexWaveFunction whose parameters are ALL exactly zero (only reachable through a zero_weights=True module) is the uniform
         # real state: an X-basis outcome "1" then has probability exactly 0, its log-likelihood gradient is 0/0 and `fit` fills the
         # parameters with NaN (a later Gibbs step raises RuntimeError). Training from that point is outside the domain of the property.
